@@ -95,7 +95,9 @@ def _edits(m: Any, node: Dict[str, Any], tbl: DocTable, d: int, quick: bool = Fa
             continue
         makers = [("", lambda ops: _build(JSONPatch(), ops))]
         if how == "pointer-text" and not quick:
-            makers += [("op-objects:", lambda ops: JSONPatch([dict(o) for o in ops])), ("json-text:", lambda ops: JSONPatch(json.dumps(ops)))]
+            makers += [("op-objects:", lambda ops: JSONPatch([dict(o) for o in ops])), ("json-text:", lambda ops: JSONPatch(json.dumps(ops))),
+                       # the pointer text as a URI fragment would carry it ("%" written %25, everything else as it is), read with URI decoding on
+                       ("uri-decoded:", lambda ops: JSONPatch([dict(o, path=o["path"].replace("%", "%25")) for o in ops], uri_decode=True))]
         elif quick and how == "pointer-text":
             continue
         for mname, make in makers:
